@@ -177,6 +177,11 @@ def check_row(rep, ctx, row):
         X = ctx.X
         call = fw.aff_value(fam, "callable")(X) if e["source"]["kind"] == "callable" else None
         check_affinity_fn(rep, row, "affinity", lambda y: g.compute_affinity(X.copy(), y), named_oracle(fam, X), call, X)
+        if e["source"]["kind"] in ("named", "callable") and e["verdict"] != "error":
+            # same objective object, another data set of the SAME shape: the affinity must be the one of the data passed now
+            X2 = np.ascontiguousarray(X[::-1] * 0.5 + 0.25)
+            call2 = fw.aff_value(fam, "callable")(X2) if e["source"]["kind"] == "callable" else None
+            check_affinity_fn(rep, row, "affinity-second-data", lambda y: g.compute_affinity(X2.copy(), y), named_oracle(fam, X2), call2, X2)
         if e["source"]["kind"] == "precomputed" and e["verdict"] != "error":
             # the data may be handed over as integers (score / path do not convert it): the user's matrix is still the affinity
             Xi = np.round(X * 4).astype(np.int64)
